@@ -120,7 +120,9 @@ impl LyNative for AssertEq {
     }
 
     let arg0 = to_str(hooks, args[0]);
+    hooks.push_root(arg0);
     let arg1 = to_str(hooks, args[1]);
+    hooks.pop_roots(1);
 
     create_error!(
       self.error,
@@ -165,7 +167,9 @@ impl LyNative for AssertNe {
     }
 
     let arg0 = to_str(hooks, args[0]);
+    hooks.push_root(arg0);
     let arg1 = to_str(hooks, args[1]);
+    hooks.pop_roots(1);
 
     create_error!(
       self.error,
